@@ -9,6 +9,7 @@ import (
 	"reflect"
 	"sync"
 	"sync/atomic"
+	"unicode/utf8"
 
 	"google.golang.org/grpc"
 	"google.golang.org/grpc/codes"
@@ -296,6 +297,15 @@ func (c *tunnelChannel) newStream(ctx context.Context, clientStreams, serverStre
 
 	str, md, err := c.allocateStream(ctx, clientStreams, serverStreams, methodName, opts)
 	if err != nil {
+		return nil, err
+	}
+	err = validateMetadata(md)
+	if err == nil && !utf8.ValidString(methodName) {
+		err = status.Errorf(codes.Internal, "method name %q is not valid UTF-8", methodName)
+	}
+	if err != nil {
+		// fail just this RPC; sending would fail (and thus close) the tunnel
+		c.removeStream(str.streamID)
 		return nil, err
 	}
 	err = c.stream.Send(&tunnelpb.ClientToServer{
